@@ -248,7 +248,8 @@ func tieFree(in *Input) bool {
 		return false
 	}
 	fts := finishTimes(in)
-	// two relays' calls returning at one instant probe the semaphore at one instant
+	// two relays' calls returning at one instant (kept apart everywhere, though since the repair of
+	// unblindProposal only a return at the instant of the first delivery is left to Go's scheduler)
 	seen := map[uint64]bool{}
 	for _, fs := range fts {
 		for _, f := range fs {
@@ -911,6 +912,76 @@ func genLats(r *Rand, in *Input) {
 	}
 }
 
+// firstBlockWhileBusy shapes the relays so that one of them hands back the full block promptly (on its
+// first try, or on its second after a quick failure) while another one is still inside UnblindProposal:
+// hanging until the context ends, or slow to answer (whatever its answer is), possibly past the
+// deadline -- or (1 in 6) has already given up.  The first full block has to be submitted, without
+// waiting for the other relay.  Returns the two relays.
+func firstBlockWhileBusy(r *Rand, in *Input) []int {
+	for len(in.Relays) < 2 {
+		in.Relays = append(in.Relays, Relay{Can: true, Script: []UOut{{Kind: "err", Lat: uint64(r.Range(0, 999))}, {Kind: "err", Lat: uint64(r.Range(0, 999))}, {Kind: "err", Lat: uint64(r.Range(0, 999))}}})
+	}
+	w := r.Intn(len(in.Relays))
+	b := r.Intn(len(in.Relays) - 1)
+	if b >= w {
+		b++
+	}
+	in.Relays[w].Can, in.Relays[b].Can = true, true
+	block := func(lat uint64) UOut {
+		o := UOut{Kind: "echo", Lat: lat}
+		if r.Chance(1, 3) {
+			o.Kind = "ok"
+			o.Block = &SBlock{Sig: uint64(r.Range(1, 1<<30)), Hdr: genHdr(r, in.Slot, in.Validator)}
+			if in.Proposal.Block != nil && r.Bool() {
+				h := *in.Proposal.Block
+				o.Block.Hdr = &h
+			}
+		}
+		if in.Proposal.Version == 5 && r.Chance(2, 3) {
+			if o.Kind == "ok" {
+				o.Block.Blobs = uint64(r.Range(1, 1<<20))
+			} else {
+				o.Blobs = uint64(r.Range(1, 1<<20))
+			}
+		}
+		return o
+	}
+	// the relay that delivers
+	first := uint64(r.Range(5, 1500))
+	sw := in.Relays[w].Script
+	if r.Chance(1, 4) {
+		// on its second try
+		quick := uint64(r.Range(0, 300))
+		sw[0] = UOut{Kind: "err", Lat: quick}
+		sw[1] = block(first)
+		first += quick + 250
+	} else {
+		sw[0] = block(first)
+	}
+	// the relay that is busy then
+	sb := in.Relays[b].Script
+	switch r.Intn(6) {
+	case 5:
+		// has given up (a 400, or no block at all) before the first block is back: the block of the
+		// other relay is still to be waited for, and submitted
+		sb[0] = UOut{Kind: []string{"400", "400", "nil"}[r.Intn(3)], Lat: uint64(r.Range(0, int(first)))}
+	case 0, 1:
+		// never answers: every try hangs until the context is over
+		for k := range sb {
+			sb[k] = UOut{Kind: "hang", Lat: uint64(r.Range(0, 40))}
+		}
+	case 2:
+		// fails quickly once, then hangs
+		sb[0] = UOut{Kind: "err", Lat: uint64(r.Range(0, 200))}
+		sb[1] = UOut{Kind: "hang", Lat: uint64(r.Range(0, 40))}
+		sb[2] = UOut{Kind: "hang", Lat: uint64(r.Range(0, 40))}
+	default:
+		// answers (a block, an error, a 400, nothing) well after the first block is back, maybe after the deadline
+		sb[0].Lat = first + uint64(r.Range(100, 7000))
+	}
+	return []int{w, b}
+}
+
 func subset(r *Rand, xs []int, keep int) []int {
 	var out []int
 	for _, x := range xs {
@@ -1047,11 +1118,20 @@ func genDuty(r *Rand, fix func(*Input)) Input {
 	// how long the providers take
 	genLats(r, &in)
 	// relays and the auction
+	// 1 blinded proposal in 4: one relay hands back the full block while another one is still asked
+	busy := in.Proposal != nil && in.Proposal.Blinded && in.Auction == "ok" && r.Chance(1, 4)
+	var pair []int
 	for {
 		genRelays(r, &in)
+		if busy {
+			pair = firstBlockWhileBusy(r, &in)
+		}
 		if tieFree(&in) {
 			break
 		}
+	}
+	if busy {
+		in.Tags = append(in.Tags, "unblind:a-relay-still-asked-when-the-first-block-is-back")
 	}
 	idx := make([]int, len(in.Relays))
 	for i := range idx {
@@ -1072,6 +1152,23 @@ func genDuty(r *Rand, fix func(*Input)) Input {
 		}
 		if in.Winners == nil {
 			in.Winners = []int{}
+		}
+		if busy && r.Chance(5, 6) {
+			// both relays of the pair are asked: they are among the winners, or nobody won / every relay is asked
+			in.All = idx
+			switch r.Intn(3) {
+			case 0:
+				in.Winners = []int{}
+			case 1:
+				in.Winners = idx
+			default:
+				in.Winners = nil
+				for _, i := range idx {
+					if i == pair[0] || i == pair[1] || r.Bool() {
+						in.Winners = append(in.Winners, i)
+					}
+				}
+			}
 		}
 	}
 	if in.Proposal != nil && in.Proposal.Blinded && in.Auction == "ok" && r.Chance(1, 5) {
@@ -1328,6 +1425,23 @@ func tagsOf(in *Input) []string {
 	return tags
 }
 
+// stillAsked: at the instant of the submission some relay was inside a call (made before, returning later)
+func stillAsked(in *Input, o *Obs) bool {
+	for i, cs := range o.Calls {
+		for k, c := range cs {
+			if i >= len(in.Relays) || k >= len(in.Relays[i].Script) {
+				continue
+			}
+			out := in.Relays[i].Script[k]
+			// times are in ms after T0; a hanging call returns when the context is over
+			if c.Start <= o.Submit.At && (out.Kind == "hang" && o.T0+o.Submit.At < in.Deadline || out.Kind != "hang" && c.Start+out.Lat > o.Submit.At) {
+				return true
+			}
+		}
+	}
+	return false
+}
+
 func count(col *Collector, in *Input, o *Obs) {
 	if p := in.Proposal; p != nil {
 		col.Count(fmt.Sprintf("proposal:v%d:blinded=%v", p.Version, p.Blinded))
@@ -1350,6 +1464,9 @@ func count(col *Collector, in *Input, o *Obs) {
 		if len(tg) > 4 && tg[:4] == "lat:" {
 			col.Count(tg)
 			lat = true
+		}
+		if len(tg) > 8 && tg[:8] == "unblind:" {
+			col.Count(tg)
 		}
 	}
 	if !lat {
@@ -1378,6 +1495,9 @@ func count(col *Collector, in *Input, o *Obs) {
 		ncalls += len(cs)
 	}
 	col.Count(fmt.Sprintf("observed:unblind-calls:%d", ncalls))
+	if o.Submit != nil && stillAsked(in, o) {
+		col.Count("observed:block-submitted-while-another-relay-was-still-asked")
+	}
 	switch {
 	case o.Panic:
 		col.Count("observed:panic")
